@@ -228,6 +228,7 @@ class Verifier(Stmts):
         st.old = old
         st.frame.vars.pop('__dummy__', None)
         pre_frame_vars = dict(st.frame.vars)
+        self._entry_params = dict(vals)
         # execute the body in a callee frame so that parameters stay visible to the post-condition under their names
         st.depth = 0
         outcomes = []
@@ -425,6 +426,17 @@ class Verifier(Stmts):
                 for k, text in enumerate(con.requires_):
                     goal = self.spec_bool(text, cst, env)
                     self.oblige(cst, goal, "%s:call[%s]:requires[%d]" % (caller, qn.split('.')[-1], k), text)
+                if con.measure_ and qn == self.current:
+                    # a recursive call through the function's own contract: the measure decreases (termination)
+                    m_callee = self.term(self.spec_value(con.measure_, cst, env), INT)
+                    outer = st.stack[0] if st.stack else None
+                    cst.stack.append(Frame(dict(self._entry_params), None, func.__globals__, qn + ':measure'))
+                    try:
+                        m_caller = self.term(self.spec_value(con.measure_, cst, {}), INT)
+                    finally:
+                        cst.stack.pop()
+                    self.oblige(cst, z3.And(m_callee >= 0, m_callee < m_caller),
+                                "%s:call[%s]:decreases" % (caller, qn.split('.')[-1]), con.measure_)
             pre = cst.fork()
             # result
             rty = con.returns_type
